@@ -193,6 +193,15 @@ static void check_euler(int c, int steps, int i, int j, int k) {
 		Matrix4_<T> Mi = Matrix4_<T>::rotateE(Vec3_<T>(e[0], e[1], e[2]), s[0] - 'X', s[1] - 'X', s[2] - 'X');
 		if (dist(top3(Mi), top3(M)) != 0) rep.bad("euler_api_mismatch", fmt("rotateE(r,%d,%d,%d) differs from rotateE(r,\"%s\")", s[0] - 'X', s[1] - 'X', s[2] - 'X', cn.c_str()), kase);
 	}
+	// a fixed-frame triple (e0,e1,e2) of "ABC*" is formed by the very same products as the moving-frame triple (e2,e1,e0) of "CBA":
+	// the matrix is bit-identical to one that is already converted to everything, so only the string form is checked here
+	if (c & 1) {
+		int cr = -1; const char* s = ORDERS[c >> 1];
+		for (int o = 0; o < 12; o++) if (ORDERS[o][0] == s[2] && ORDERS[o][1] == s[1] && ORDERS[o][2] == s[0]) cr = o * 2;
+		Matrix4_<T> Mr = Matrix4_<T>::rotateE(Vec3_<T>(e[2], e[1], e[0]), conv_name(cr).c_str());
+		if (dist(top3(Mr), top3(M)) != 0) rep.bad("euler_fixed_vs_moving", fmt("rotateE(r, \"%s\") is not bit-identical to rotateE(r.zyx(), \"%s\")", cn.c_str(), conv_name(cr).c_str()), kase);
+		return;
+	}
 	hub<T>(M, R, src, kase, 0);
 }
 
@@ -309,7 +318,7 @@ int main(int argc, char** argv) {
 	});
 	mx.collect(); mx.publish();
 	vf::setinfo("tolerances", fmt("\"to matrix/quaternion: %.0Lf eps; back to angles/quaternion/axis-angle: %.0Lf eps x max(1, 1/rho), rho = |cos(middle)| (Tait-Bryan), |sin(middle)| (proper Euler), |sin(angle/2)| (axis-angle); mathematically degenerate inputs: %.0Lf eps\"", TOL_DIRECT, TOL_BACK, TOL_BACK));
-	vf::sample("eul:d:1:24:1:6:-1 = rotateE((15,90,-15) deg, \"XYZ*\") -> eulerAngles in all 24 conventions, rotation(), axisAngle(), and the same again on rotation().matrix()");
+	vf::sample("eul:d:0:24:1:6:-1 = rotateE((15,90,-15) deg, \"XYZ\") -> eulerAngles in all 24 conventions, rotation(), axisAngle(), and the same again on rotation().matrix()");
 	vf::sample("quat:f:0:1:1:0 = 180 deg about (1,1,0)/sqrt2 as a float quaternion -> matrix(), axisAngle(), every Euler convention");
 	vf::sample("aa:d:1:-2:2:24:12 = Matrix4d::rotate(Vec3d(1,-2,2), 180 deg), Quaterniond::fromAxisAngle, rotation vector forms");
 	return vf::finish();
